@@ -1,8 +1,11 @@
 """C15 - logic-value encodings convert losslessly and follow the axis convention.
 (a) strings: the real interpret / mvarray / mv_str on symbolic characters (E2: every path of the alias matching), vs the documented alias table;
 (b) mv <-> bp and the generic bit pack/unpack helpers on symbolic array contents through a numpy shim (vlib/symnp.py);
-(c) popcount: one query over the real lookup table + symbolic sum."""
+(c) popcount: the real kyupy.popcount runs on arrays of symbolic bytes (table gather via a z3 array of the real table, or bit tricks on uint8 terms); one query per shape."""
+import functools
 import itertools
+
+import time
 
 import numpy as np
 import z3
@@ -20,7 +23,7 @@ ASSUME = [
     'alias table from the logic.py constant documentation: 0/L/l, 1/H/h, -/Z/z, R/r//, F/f/\\\\, P/p/^, N/n/v, anything else X; rendering 0X-1PRFN',
     'mv<->bp, packbits/unpackbits: array contents symbolic bit-vectors, shapes and dtypes enumerated; numpy\'s C-level np.packbits / np.unpackbits / ndarray.view are replaced by stubs implementing their documented contract, '
     'differentially validated against real numpy on every run',
-    'popcount: the real 256-entry table is the constant array of an SMT query; np.sum is trusted',
+    'popcount: the real function runs on symbolic uint8 elements; a 256-entry lookup table, if the implementation has one, is the constant array of the query; np.sum is modelled as a 16-bit sum (no wrap for <= 4 bytes); shapes (1,), (3,), (2,2); per query one byte arbitrary and the others in {0x00,0x80,0x5a,0xff}',
 ]
 
 ALIAS = {0: "0Ll", 3: "1Hh", 2: "-Zz", 5: "Rr/", 6: "Ff\\", 4: "Pp^", 7: "Nnv"}
@@ -216,6 +219,10 @@ def pack_job(job):
         logic.np = old
     rep.counts['paths'] += 1
     data = {'mode': 'pack', 'kind': kind, 'spec': [str(spec[0]), list(spec[1]), spec[2]] if kind == 'pack' else list(spec)}
+    if not bad:          # concolic step: the same claims on concrete arrays through the real numpy (validates the stubs' view of the code)
+        rep.counts['concolic_runs'] += 1
+        ok, what = replay_pack(data)
+        if ok: rep.violation(f'{kind}/{data["spec"]}', f'concrete run: {what}', data)
     if bad:
         ok, what = replay(data)
         if ok: rep.violation(f'{kind}/{data["spec"]}', f'{bad[0]}; replay: {what}', data)
@@ -268,48 +275,131 @@ def replay_pack(data):
 
 # ------------------------------------------------------------------------------------------------ (c) popcount
 
+class UB:
+    """one element of a numpy uint8 array (arithmetic with small python ints stays uint8 and wraps)"""
+    def __init__(self, e): self.e = e
+    @staticmethod
+    def _c(o):
+        if isinstance(o, UB): return o.e
+        if isinstance(o, (int, np.integer)) and 0 <= int(o) < 256: return z3.BitVecVal(int(o), 8)
+        raise NotImplementedError(f'uint8 operand {o!r}')
+    def __add__(self, o): return UB(self.e + UB._c(o))
+    __radd__ = __add__
+    def __sub__(self, o): return UB(self.e - UB._c(o))
+    def __rsub__(self, o): return UB(UB._c(o) - self.e)
+    def __mul__(self, o): return UB(self.e * UB._c(o))
+    __rmul__ = __mul__
+    def __and__(self, o): return UB(self.e & UB._c(o))
+    __rand__ = __and__
+    def __or__(self, o): return UB(self.e | UB._c(o))
+    __ror__ = __or__
+    def __xor__(self, o): return UB(self.e ^ UB._c(o))
+    __rxor__ = __xor__
+    def __invert__(self): return UB(~self.e)
+    def __rshift__(self, o): return UB(z3.LShR(self.e, UB._c(o)))
+    def __lshift__(self, o): return UB(self.e << UB._c(o))
+
+
+SUMW = 16          # width of the accumulator in the query (arrays of <= 4 bytes: no wrap; numpy's own accumulator has 64 bits)
+
+
+def _as_int(x):
+    if isinstance(x, UB): x = x.e
+    if z3.is_bv(x): return x if x.size() == SUMW else z3.ZeroExt(SUMW - x.size(), x)
+    return z3.BitVecVal(int(x), SUMW)
+
+
 class SymLUT:
+    """the real lookup table as a z3 if-then-else chain; indexing with an array of symbolic bytes yields Select terms"""
     def __init__(self, table):
-        self.K = z3.K(z3.IntSort(), z3.IntVal(0))
-        for i, v in enumerate(table): self.K = z3.Store(self.K, i, int(v))
+        self.table = [int(v) for v in table]
+
+    def sel(self, b):
+        e = z3.BitVecVal(0, SUMW)          # (an index past the table would raise in numpy; the byte cannot exceed 255 with 256 entries)
+        for i in reversed(range(len(self.table))): e = z3.If(b == i, z3.BitVecVal(self.table[i], SUMW), e)
+        return e
 
     def __getitem__(self, a):
-        out = np.empty(np.shape(a), dtype=object)
-        for idx in np.ndindex(np.shape(a)): out[idx] = z3.Select(self.K, z3.BV2Int(symnp.bvw(a[idx], 8)))
+        a = np.asarray(a, dtype=object)
+        out = np.empty(a.shape, dtype=object)
+        for idx in np.ndindex(a.shape): out[idx] = self.sel(UB._c(a[idx]))
         return out
 
 
+class PopNP:
+    """np as seen by kyupy.popcount during the symbolic run: sum() adds in unbounded integers (numpy sums uint8 in a 64-bit
+    accumulator; here a 16-bit one suffices for <= 4 bytes), asarray keeps the symbolic array"""
+    def __getattr__(self, n): return getattr(np, n)
+    @staticmethod
+    def asarray(a, *k, **kw): return a
+    @staticmethod
+    def sum(a, *k, **kw): return functools.reduce(lambda x, y: x + y, [_as_int(x) for x in np.asarray(a, dtype=object).reshape(-1)])
+
+
 def popcount_check(rep):
-    lut = [int(x) for x in kyupy._pop_count_lut]
-    b = z3.BitVec('b', 8)
-    f = z3.Function('lut', z3.IntSort(), z3.IntSort())
-    s = z3.Solver()
-    if len(lut) != 256: rep.violation('popcount/table', f'lookup table has {len(lut)} entries', {'mode': 'popcount'}); return
-    s.add([f(i) == v for i, v in enumerate(lut)])
-    bits = z3.Sum([z3.BV2Int(z3.Extract(k, k, b)) for k in range(8)])
-    s.add(f(z3.BV2Int(b)) != bits)
-    r = s.check(); rep.counts['queries_' + str(r)] += 1; rep.counts['obligations'] += 1
-    if r == z3.sat:
-        v = s.model().eval(b).as_long()
-        rep.violation('popcount/table', f'popcount table entry {v} is {lut[v]}, the byte has {bin(v).count("1")} one bits', {'mode': 'popcount'})
-        return
-    if r != z3.unsat: rep.error('popcount query unknown'); return
-    rep.counts['discharged'] += 1
-    # the sum over an array (np.sum of the table lookup, trusted numpy) - concrete differential, supplementary
+    """the real kyupy.popcount executed on arrays of symbolic bytes (whatever its implementation: table gather or bit tricks)"""
+    names = {}
+    # one query per (shape, free position): that byte is arbitrary, the others range over {0x00, 0x80, 0x5a, 0xff}
+    # (all bytes arbitrary at once is an adder-tree equivalence z3 does not finish in 30 s for 3 bytes - measured)
+    for shape, pos in [(sh, p) for sh in ((1,), (3,), (2, 2)) for p in range(int(np.prod(sh)))]:
+        a = np.empty(shape, dtype=object)
+        vs, cons = [], []
+        for k, idx in enumerate(np.ndindex(shape)):
+            v = z3.BitVec('p' + '_'.join(map(str, idx)), 8); vs.append(v); a[idx] = UB(v)
+            if k != pos: cons.append(z3.Or(v == 0, v == 0x80, v == 0x5a, v == 0xff))
+        old_np, had_lut, old_lut = kyupy.np, hasattr(kyupy, '_pop_count_lut'), getattr(kyupy, '_pop_count_lut', None)
+        kyupy.np = PopNP()
+        try:
+            if had_lut:
+                lut = [int(x) for x in np.asarray(old_lut).reshape(-1)]
+                kyupy._pop_count_lut = SymLUT(lut)
+            got = kyupy.popcount(a)
+        except Exception as e:
+            got = None; why = f'{type(e).__name__}: {e}'
+        finally:
+            kyupy.np = old_np
+            if had_lut: kyupy._pop_count_lut = old_lut
+        rep.counts['obligations'] += 1
+        if got is None:
+            # the implementation uses something the symbolic byte does not model: concrete run over every byte value (not a solver verdict)
+            rep.note(f'popcount shape {shape}: symbolic run not possible ({why}); decided by enumeration of all 256 byte values instead')
+            for v in range(256):
+                arr = np.full(shape, v, dtype=np.uint8)
+                rep.counts['concolic_runs'] += 1
+                if int(kyupy.popcount(arr)) != arr.size * bin(v).count('1'):
+                    rep.violation('popcount/value', f'popcount({arr.tolist()}) = {int(kyupy.popcount(arr))}', {'mode': 'popcount', 'array': arr.tolist()}); return
+            rep.counts['discharged'] += 1
+            continue
+        want = functools.reduce(lambda x, y: x + y, [z3.ZeroExt(SUMW - 1, z3.Extract(k, k, v)) for v in vs for k in range(8)])
+        s = z3.Solver(); s.set('timeout', 60000)
+        s.add(cons); s.add(_as_int(got) != want)
+        t = time.time(); r = s.check(); rep.solver_s += time.time() - t
+        rep.counts['queries_' + str(r)] += 1
+        if r == z3.sat:
+            m = s.model()
+            arr = np.array([m.eval(v, model_completion=True).as_long() for v in vs], dtype=np.uint8).reshape(shape)
+            data = {'mode': 'popcount', 'array': arr.tolist()}
+            ok, what = replay(data)
+            if ok: rep.violation('popcount/value', what, data)
+            else: rep.error(f'popcount: counterexample {arr.tolist()} does not replay')
+            return
+        if r != z3.unsat: rep.error('popcount query unknown'); return
+        rep.counts['discharged'] += 1
+    # concrete differential on larger arrays (np.sum itself is trusted numpy), supplementary
     rng = np.random.default_rng(3)
     for shape in ((1,), (5,), (2, 3), (2, 3, 4)):
         a = rng.integers(0, 256, shape, dtype=np.uint8)
         rep.counts['concolic_runs'] += 1
         if int(kyupy.popcount(a)) != sum(bin(int(v)).count('1') for v in a.reshape(-1)):
-            rep.violation('popcount/sum', f'popcount({a.tolist()}) = {int(kyupy.popcount(a))}', {'mode': 'popcount'})
+            rep.violation('popcount/sum', f'popcount({a.tolist()}) = {int(kyupy.popcount(a))}', {'mode': 'popcount', 'array': a.tolist()})
 
 
 def replay(data):
     if data['mode'] == 'string': return replay_string(data)
     if data['mode'] == 'pack': return replay_pack(data)
-    lut = [int(x) for x in kyupy._pop_count_lut]
-    bad = [i for i in range(min(256, len(lut))) if lut[i] != bin(i).count('1')]
-    return bool(bad) or len(lut) != 256, f'popcount table wrong at {bad[:3]}'
+    arr = np.array(data.get('array', [255]), dtype=np.uint8)
+    got, want = int(kyupy.popcount(arr)), sum(bin(int(v)).count('1') for v in arr.reshape(-1))
+    return got != want, f'popcount({arr.tolist()}) = {got}, the array has {want} one bits'
 
 
 def jobs(tier):
